@@ -10,6 +10,8 @@ namespace sim {
 // fault kinds attached to ops (Op::fk)
 enum { FK_NONE = 0, FK_NTH = 1, FK_FROM = 2, FK_BERN = 3 };
 
+static int g_heavy_op = -1; // index of the op with the long preparation phase
+static bool g_heavy_plan = false; // set by an execution that contains a very long preparation phase: the fault enumeration keeps its budget small
 static std::vector<uint32_t> g_req_per_op; // filled by every execution: allocation requests issued inside each op
 
 struct SeqRun
@@ -162,9 +164,9 @@ static inline int64_t gen_index_sel(Rng &r)
     if (r.chance(1, 2)) return 0;
     return (int64_t)r.below(9);
 }
-static const size_t ELEM_SIZES[] = {0, 1, 2, 3, 4, 7, 8, 16, 24, 40, 0, 4, 8, 1, 64, 100, 256, 1000}; // the last four are drawn less often (see gen)
-enum { N_ELEM_SIZES = 18 };
-static inline int64_t gen_zsel(Rng &r) { return r.chance(1, 12) ? 14 + (int64_t)r.below(4) : (int64_t)r.below(14); }
+static const size_t ELEM_SIZES[] = {0, 1, 2, 3, 4, 7, 8, 16, 24, 40, 0, 4, 8, 1, 64, 100, 256, 1000, 1500, 4100}; // the last four are drawn less often (see gen)
+enum { N_ELEM_SIZES = 18, N_ELEM_SIZES_ALL = 20 }; // the first 18 are what op arguments select (kept stable for old replay files); the initial size may be any of the 20
+static inline int64_t gen_zsel(Rng &r) { return r.chance(1, 12) ? 14 + (int64_t)r.below(6) : (int64_t)r.below(14); }
 static inline size_t norm_z(size_t z) { return z ? z : 1; }
 
 } // namespace sim
